@@ -4,6 +4,7 @@ import (
 	"encoding/hex"
 	"encoding/json"
 	"fmt"
+	"github.com/cloudwego/gopkg/unsafex"
 	"math/rand"
 	"sort"
 	"strconv"
@@ -727,6 +728,45 @@ func bigMapMonitor(c *Ctx) {
 		c.GoViolation("strmap-big", "strmap/giant-keys", map[string]int{"n": len(gk)}, bad)
 	}
 	c.AddExtraCount("giant_keys_compared_in_go", int64(len(gk)))
+	// more than 4 GiB of key bytes in ONE map (257 distinct keys of 16 MiB: overlapping windows of one buffer, so only the
+	// map's own copy costs memory): offsets into the key store beyond 2^32
+	func() {
+		const kl = 16 << 20
+		const nk = 257
+		buf := make([]byte, kl+nk)
+		for i := range buf {
+			buf[i] = byte(i*131 + i>>11)
+		}
+		ks, vs := make([]string, nk), make([]int, nk)
+		for i := range ks {
+			ks[i] = unsafex.BinaryToString(buf[i : i+kl])
+			vs[i] = i + 1
+		}
+		bad := guarded(func() string {
+			m := strmap.NewFromSlice(ks, vs)
+			if m.Len() != nk {
+				return fmt.Sprintf("Len %d for %d keys", m.Len(), nk)
+			}
+			for i, k := range ks {
+				if v, ok := m.Get(k); !ok || v != vs[i] {
+					return fmt.Sprintf("key #%d (offset %d in the key store) answers (%d, %v)", i, i*kl, v, ok)
+				}
+			}
+			seen := map[int]bool{}
+			for i := 0; i < m.Len(); i++ {
+				k, v := m.Item(i)
+				if v < 1 || v > nk || seen[v] || len(k) != kl || k[:64] != ks[v-1][:64] || k[kl-64:] != ks[v-1][kl-64:] {
+					return fmt.Sprintf("Item(%d) = (key of %d bytes, %d): not the loaded pair, or twice", i, len(k), v)
+				}
+				seen[v] = true
+			}
+			return ""
+		})
+		if bad != "" {
+			c.GoViolation("strmap-big", "strmap/4gib-of-keys", map[string]int{"n": nk}, bad)
+		}
+		c.AddExtraCount("giant_keys_compared_in_go", nk)
+	}()
 }
 
 func checkC07(c *Ctx) {
